@@ -97,6 +97,24 @@ CHECKS.update({
         note="Directive-argument positions are covered by C13's machinery."),
 })
 
+CHECKS.update({
+    "C13": dict(
+        level="exploration", design="DESIGN.md section 5 C13",
+        technique="deterministic simulation: seeded directive arrangements x requests x hook suspension schedules; oracle = recorded hook-call history (exactly once, coerced directive args) + non-commuting tag fold",
+        text="0-3 tagging directive instances are placed at every attachable location of a schema family and on request fields; "
+             "inputs arrive as literals, variables and nested variables; every hook suspends at a scheduler point. The hook-call "
+             "multiset and the tagged values seen by resolvers and in data must equal the fold the property states.",
+        note="Null values: the statement is silent; the model follows the engine (type-level hooks receive None). Enum value vs enum type order not asserted."),
+    "C14": dict(
+        level="exploration", design="DESIGN.md section 5 C14",
+        technique="deterministic simulation: interleaved subscription consumers and sources pausing at scheduler points, event histories with failing / null payloads; oracle = per-event twin execute(initial_value=event) + event-log ordering",
+        text="1-3 subscriptions (+ ordinary queries) are consumed concurrently in one SimLoop; each source yields a seeded finite "
+             "event sequence. Responses must be 1:1 and in order with events, each equal to execute(text, initial_value=event) on a "
+             "twin engine and to the reference executor; failing events must not end the stream; refused requests yield one "
+             "errors-only response without starting the source.",
+        note="Argument-coercion failures of the source field itself are outside the statement and not generated."),
+})
+
 NOT_APPLICABLE = {
     "C10": "pure synchronous functions of one value (scalar coercion laws): no schedule, clock, fault, interleaving or history "
            "for a simulator to control; deciding them is boundary-value enumeration, a different technique (DESIGN.md section 2)",
